@@ -333,14 +333,46 @@ def owned_codes(cls):
 
 
 class Watch:
-    """sys.setprofile based recorder of python-level calls into `codes`."""
+    """Records python-level calls into `codes` (code object -> label) while active.  Uses sys.monitoring
+    (PY_START armed on exactly these code objects; no overhead elsewhere), else sys.setprofile."""
+    _tool = None
+    _current = None
+    _armed = set()
 
     def __init__(self, codes):
         self.codes = codes
         self.hits = []
+        mon = getattr(sys, "monitoring", None)
+        if mon is not None:
+            if Watch._tool is None:
+                for tid in (4, 3, 5):
+                    try:
+                        mon.use_tool_id(tid, "c05-watch")
+                        Watch._tool = tid
+                        break
+                    except ValueError:
+                        continue
+                if Watch._tool is not None:
+                    mon.register_callback(Watch._tool, mon.events.PY_START, Watch._cb)
+            if Watch._tool is not None:
+                for code in codes:
+                    if code not in Watch._armed:
+                        mon.set_local_events(Watch._tool, code, mon.events.PY_START)
+                        Watch._armed.add(code)
+
+    @staticmethod
+    def _cb(code, offset):
+        w = Watch._current
+        if w is not None:
+            label = w.codes.get(code)
+            if label is not None:
+                w.hits.append(label)
 
     def __enter__(self):
         self.hits = []
+        if Watch._tool is not None:
+            Watch._current = self
+            return self
 
         def prof(frame, event, arg):
             if event == "call" and frame.f_code in self.codes:
@@ -350,7 +382,10 @@ class Watch:
         return self
 
     def __exit__(self, *a):
-        sys.setprofile(self._old)
+        if Watch._tool is not None:
+            Watch._current = None
+        else:
+            sys.setprofile(self._old)
 
 
 def make_thread(obj):
@@ -385,7 +420,7 @@ def route_a(th, name, watch):
 def route_b(th, name, watch, args=(41,), kwargs=None, token=None):
     """_handle_method_rpc_request. -> (kind, detail, executed)   kind: value|unknown|exception|locked|raised|weird"""
     rpc, _, Unknown, _ = _rpc()
-    req = request(name, args, kwargs or {"kw": 1}, token)
+    req = request(name, args, {"kw": 1} if kwargs is None else kwargs, token)
     with watch:
         try:
             rep = th._handle_method_rpc_request(req)
@@ -410,16 +445,16 @@ def route_b(th, name, watch, args=(41,), kwargs=None, token=None):
 CALLS = []
 
 
-def make_stub(name, is_marked):
+def make_stub(name, is_marked, tag=None):
     def stub(*a, **k):
-        CALLS.append((name, a, k))
+        CALLS.append((name, a, k, tag))
         return ("stub", name)
     if is_marked:
         stub._rpc_method = True
     return stub
 
 
-def shield(obj, names, keep_module=None):
+def shield(obj, names, keep_module=None, tag=None):
     """replace every callable attribute by a recording stub carrying the same marker (attributes defined in
     `keep_module` — the generated module, whose bodies only log — are left alone)"""
     n = 0
@@ -443,7 +478,7 @@ def shield(obj, names, keep_module=None):
             if m == keep_module:
                 continue
         try:
-            obj.__dict__[nm] = make_stub(nm, bool(getattr(v, "_rpc_method", False)))
+            obj.__dict__[nm] = make_stub(nm, bool(getattr(v, "_rpc_method", False)), tag)
             n += 1
         except BaseException:  # noqa
             pass
@@ -528,7 +563,68 @@ JUNK = ["", " ", "\t", "nonexistent", "no_such_method", "__init__", "__class__",
         "mro", "__name__", "__qualname__", "__mro__", "__bases__", "__base__", "__subclasses__", "register",
         "_abc_registry", "__instancecheck__", "__subclasscheck__", "__prepare__", "__text_signature__",
         "__annotations__", "__basicsize__", "__flags__", "_dump_registry"]
-NONSTRING = [None, 5, b"get_name", ("get_name",), 1.5]
+class StrSub(str):
+    """a str subclass is a string: same outcome as the plain name"""
+
+
+NONSTRING = [None, 5, 0, True, b"get_name", b"", bytearray(b"open"), ("get_name",), 1.5, float("nan"), ["get_name"],
+             {"get_name": 1}, object(), Ellipsis, frozenset(["get_name"])]
+EXOTIC_STR = ["x" * 100000, "get_name\x00", "\x00get_name", "\x00", "get\x00name", "__class__", "__dict__", "__init__",
+              "__init_subclass__", "__subclasshook__", "__getattribute__", "__setattr__", "__delattr__",
+              "__reduce_ex__", "__sizeof__", "__dir__", "__format__", "__new__", "__del__", "__weakref__",
+              "__module__", "__doc__", "__slots__", "__mro__", "__bases__", "__globals__", "__code__", "__func__",
+              "__self__", "__wrapped__", "get_name.__func__", "get_name.__self__", StrSub("get_name"),
+              StrSub("_name"), StrSub("nonexistent")]
+
+
+def exotic_bucket(ck, th, obj, fq, origin, watch, rep, collect):
+    """Fixed bucket: non-string and exotic method names.  Expected outcome, from the property: the unknown-RPC
+    error and nothing executed (for a string: unless the name is statically marked on the object)."""
+    glog = collect.get("gen_log")
+    for ns in NONSTRING + EXOTIC_STR:
+        is_str = isinstance(ns, str)
+        tname = type(ns).__name__
+        shown = repr(ns) if len(repr(ns)) < 60 else repr(ns)[:40] + "...(%d chars)" % len(ns)
+        for route in ("A", "B"):
+            del CALLS[:]
+            if glog is not None:
+                del glog[:]
+            if route == "A":
+                kind, det, ran = route_a(th, ns, watch)
+                kind = {"accept": "value", "other": "exception"}.get(kind, kind)
+            else:
+                kind, det, ran = route_b(th, ns, watch, args=(), kwargs={})
+            executed = list(CALLS) + (list(glog) if glog is not None else [])
+            ran = [x for x in ran if not x.endswith(".__getattr__")]
+            expect_accept = is_str and static_marked(obj, ns)
+            ck.count("exotic:%s:%s" % ("str" if is_str else "nonstr", kind))
+            ck.note_case((fq, "exotic", shown, route), True)
+            if expect_accept:
+                if kind != "value":
+                    ck.report("exotic-marked-refused:%s" % origin,
+                              "request naming %s (a string naming a marked method) on %s gives %s %r"
+                              % (shown, fq, kind, det), rep({"name": shown, "route": route}))
+                continue
+            if kind == "value" or (route == "B" and executed) or ran:
+                ck.report("exotic-executes:%s:%s" % (origin, tname),
+                          "request with method_name=%s (%s) on %s: %s, executed %r %r" % (shown, tname, fq, kind, executed[:2], ran),
+                          rep({"name": shown, "route": route}))
+            elif kind in ("raised", "weird", "locked"):
+                ck.report("exotic-no-error-reply:%s:%s" % (origin, tname),
+                          "request with method_name=%s (%s) on %s gets no proper error reply: %s %r (an exception "
+                          "escaping the handler kills the object's worker thread)" % (shown, tname, fq, kind, det),
+                          rep({"name": shown, "route": route}))
+            elif kind == "exception" and not is_str:
+                # outside the property's quantifier ("for all method-name strings"): a name that is not a string is
+                # refused, nothing executes, a reply is sent; the class of the refusal (TypeError from hasattr) is an
+                # observation only (fixes/C05_nonstring_method_name.diff shows how it could be made uniform)
+                ck.count("exotic:nonstr-refused-with:%s" % det)
+            elif kind == "exception":
+                # rejected, nothing executed, but the caller sees another exception class than unknown-RPC
+                ck.report("exotic-wrong-error:%s:%s" % ("str" if is_str else "nonstring", det),
+                          "request with method_name=%s (%s) on %s is answered with %s instead of the unknown-RPC "
+                          "error (nothing executed)" % (shown, tname, fq, det),
+                          rep({"name": shown, "route": route, "error": det}))
 
 
 def probe_names(ck, cls, obj, advertised_names, rng):
@@ -690,12 +786,6 @@ def check_class(ck, tab, cache, origin, rng, demand_equal, collect):
                           "hasattr()/getattr() in _check_and_get_method evaluate the property getter %s"
                           % (nm, fq, ran_f[0]), rep({"name": nm, "route": "A", "executed": ran_f}))
             probes.append((nm, code))
-        for ns in NONSTRING:
-            kind, det, ran = route_a(th, ns, watch)
-            ck.count("nonstring-name:" + kind)
-            if kind == "accept" or [x for x in ran if not x.endswith(".__getattr__")]:
-                ck.report("nonstring-accepted:%s" % origin, "request naming %r on %s: %s %r" % (ns, fq, kind, ran),
-                          rep({"name": repr(ns)}))
         # advertised == accepted
         if demand_equal and dcode == 0 and set(accepted) != set(methods):
             diff = sorted(set(accepted) ^ set(methods))
@@ -734,6 +824,8 @@ def check_class(ck, tab, cache, origin, rng, demand_equal, collect):
                     ck.report("handler-reject:%s:%s:%s" % (origin, k[0] if k else "nonmember", kind),
                               "request naming %r on %s (not RPC-callable) is answered with %s %r instead of the "
                               "unknown-RPC error" % (nm, fq, kind, det), rep({"name": nm, "route": "B"}))
+        if origin == "shipped" or not (cls.__name__[:1] == "G" and cls.__name__[1:].isdigit()):
+            exotic_bucket(ck, th, obj, fq, origin, watch, rep, collect)   # fixed bucket: shipped + fixed classes
         # locked object: nothing runs whatever the name
         rpc = _rpc()[0]
         th._locking_token = rpc.QMI_LockTokenDescriptor("other", "tok")
@@ -839,6 +931,74 @@ class Mixin:
 
 '''
 
+
+# ---------------------------------------------------------------------------------------------
+# fixed classes (same in every run): history scenario, protected names through inheritance, mix-ins
+# ---------------------------------------------------------------------------------------------
+# (class name, bases, [(member, kind)], [instance attributes assigned in __init__])
+FIXED_SPEC = [
+    # plain mix-ins (not RPC objects themselves)
+    ("PMixLock", "", [("lock", "fm"), ("helper_of_mixin", "fu")], []),
+    ("PMixForce", "", [("force_unlock", "fm")], []),
+    ("MMix", "", [("mixed", "fm"), ("plain", "fu"), ("get_name", "fm"), ("_mixpriv", "fm")], []),
+    ("MMix2", "", [("mixed", "fu"), ("plain", "fm")], []),
+    # one name, every status: marked / unmarked / property / absent / data / overridden either way / shadowed
+    ("H_marked", "QMI_RpcObject", [("ping", "fm"), ("_ping", "fu")], []),
+    ("H_unmarked", "QMI_RpcObject", [("ping", "fu"), ("_ping", "fm")], []),
+    ("H_property", "QMI_RpcObject", [("ping", "prop"), ("_ping", "prop")], []),
+    ("H_absent", "QMI_RpcObject", [], []),
+    ("H_data", "QMI_RpcObject", [("ping", "data_int"), ("_ping", "data_none")], []),
+    ("H_over_unmarked", "H_marked", [("ping", "fu")], []),
+    ("H_over_marked", "H_unmarked", [("ping", "fm")], []),
+    ("H_shadow", "H_marked", [], ["ping"]),
+    ("H_static", "QMI_RpcObject", [("ping", "sm_in")], []),
+    ("H_classm", "QMI_RpcObject", [("ping", "cm_in")], []),
+    ("H_instr", "QMI_Instrument", [("ping", "fm"), ("start", "fu")], []),
+    # a marked protected name reaching the class through inheritance
+    ("P_base", "QMI_RpcObject", [("unlock", "fm"), ("fine", "fm")], []),
+    ("P_child", "P_base", [("other", "fm")], []),
+    ("P_grandchild", "P_child", [], []),
+    ("P_greatgrand", "P_grandchild", [("something", "fu")], []),
+    ("P_override_clean", "P_base", [("unlock", "fu")], []),
+    ("P_override_clean_child", "P_override_clean", [], []),
+    ("P_remarked", "P_override_clean", [("unlock", "fm")], []),
+    ("P_clean", "QMI_RpcObject", [("fine", "fm")], []),
+    ("P_mix_before", "PMixLock, QMI_RpcObject", [], []),
+    ("P_mix_after", "QMI_RpcObject, PMixLock", [], []),
+    ("P_mix_before_child", "P_mix_before", [("fine", "fm")], []),
+    ("P_mix_mid", "PMixLock, P_clean", [], []),
+    ("P_mix_instr", "PMixForce, QMI_Instrument", [], []),
+    ("P_mix_instr_after", "QMI_Instrument, PMixForce", [], []),
+    ("P_islocked_static", "QMI_RpcObject", [("is_locked", "sm_in")], []),
+    ("P_islocked_grand", "P_islocked_static", [("fine", "fm")], []),
+    ("P_islocked_classm", "QMI_RpcObject", [("is_locked", "cm_in")], []),
+    ("P_lock_lambda_child", "P_clean", [("lock", "lam_m")], []),
+    # marked methods coming from mix-ins placed before / after the RPC base
+    ("M_before", "MMix, QMI_RpcObject", [], []),
+    ("M_after", "QMI_RpcObject, MMix", [], []),
+    ("M_before_instr", "MMix, QMI_Instrument", [], []),
+    ("M_after_instr", "QMI_Instrument, MMix", [], []),
+    ("M_child_over", "M_before", [("mixed", "fu")], []),
+    ("M_two", "MMix, MMix2, QMI_RpcObject", [], []),
+    ("M_two_rev", "MMix2, MMix, QMI_RpcObject", [], []),
+    ("M_after_child_marks", "M_after", [("plain", "fm")], []),
+]
+
+
+def fixed_source():
+    out = []
+    names = []
+    for C, bases, members, inst in FIXED_SPEC:
+        body = [member_src(C, n, k) for n, k in members]
+        if inst:
+            body.append("    def __init__(self, context, name):\n        super().__init__(context, name)\n%s"
+                        % "".join("        self.%s = %d\n" % (x, j + 7) for j, x in enumerate(inst)))
+        out.append("class %s%s:\n%s\n" % (C, "(%s)" % bases if bases else "", "".join(body) or "    pass\n"))
+        if bases:
+            names.append(C)
+    out.append("FIXED = [%s]\n\n" % ", ".join(names))
+    return "\n".join(out)
+
 MEMBER_NAMES = ["alpha", "beta", "gamma", "delta", "eps", "zeta", "eta", "theta", "iota", "kappa",
                 "_priv", "_helper", "__mang", "m\u00e9thode", "open", "close", "get_name", "get_signals",
                 "is_open", "measure", "CONST", "sig_a", "sig_b", "__call__", "__enter__", "release_rpc_object"]
@@ -896,7 +1056,7 @@ def member_src(C, n, kind):
 
 def gen_source(seed, n):
     rng = random.Random(seed)
-    src = [GEN_PRELUDE % {"seed": seed, "n": n}]
+    src = [GEN_PRELUDE % {"seed": seed, "n": n}, fixed_source()]
     names = []
     kinds, weights = zip(*KINDS)
     for i in range(n):
@@ -961,7 +1121,7 @@ def load_generated(ck_scratch, seed, n):
     errors = []
     try:
         mod = importlib.import_module(modname)
-        return mod, list(mod.CLASSES), errors
+        return mod, list(mod.FIXED) + list(mod.CLASSES), errors
     except BaseException:  # noqa
         pass
     # some class statement fails (e.g. invalid signal name): build the module class by class
@@ -995,8 +1155,119 @@ def load_generated(ck_scratch, seed, n):
     exec(code, mod.__dict__)
     classes = [v for k, v in mod.__dict__.items() if isinstance(v, type) and k.startswith("G") and k[1:].isdigit()]
     classes.sort(key=lambda c: int(c.__name__[1:]))
-    return mod, classes, errors
+    return mod, list(mod.FIXED) + classes, errors
 
+
+
+# ---------------------------------------------------------------------------------------------
+# fixed bucket: histories over several objects of different classes in one process
+# ---------------------------------------------------------------------------------------------
+HIST_NAMES = ["ping", "_ping", "get_version", "open", "start", "get_name", "nonexistent", "__class__", "lock"]
+HIST_SHIPPED = ["qmi.core.context._ContextRpcObject", "qmi.instruments.dummy.noisy_sine_generator.NoisySineGenerator",
+                "qmi.core.task.QMI_TaskRunner"]
+
+
+def history_bucket(ck, tabs, gtabs, cache, gmod, gen_params=None):
+    """Requests to several live objects, interleaved: for every name and every ordered pair of objects (P, Q):
+    P, Q, P (marked on one / unmarked, private, property, data, absent, shadowed on the other, both orders;
+    refused then asked again; accepted then asked on another object), and for every object and ordered pair of
+    names: n1, n2, n1.  The oracle is per request and knows nothing of the history: accepted iff the name is
+    statically marked on the target object; exactly that object's method runs, once; otherwise unknown-RPC and
+    nothing runs.  -> (Coq hcase terms, number of requests)"""
+    LOG = gmod.LOG
+    objs = []
+    for t in gtabs + tabs:
+        cls = t["cls"]
+        fq = "%s.%s" % (cls.__module__, cls.__qualname__)
+        if not ((cls.__module__ == gmod.__name__ and cls.__name__.startswith("H_")) or fq in HIST_SHIPPED):
+            continue
+        obj, why = try_instantiate(cls)
+        if obj is None:
+            # every class of this bucket is constructible on a correct tree
+            ck.report("history:object-cannot-be-created", "history bucket: %s cannot be instantiated: %s" % (fq, why),
+                      {"origin": "history", "gen": gen_params, "class": fq, "error": why})
+            continue
+        i = len(objs)
+        exp, defcls = {}, {}
+        for nm in HIST_NAMES:
+            exp[nm] = static_marked(obj, nm)
+            st = inspect.getattr_static(obj, nm, None)
+            f = st.__func__ if isinstance(st, (staticmethod, classmethod)) else st
+            defcls[nm] = getattr(f, "__qualname__", "").split(".")[0]
+        inst0 = [n for n in vars(obj) if isinstance(n, str)]
+        shipped = cls.__module__ != gmod.__name__
+        shield(obj, dir(obj), None if shipped else gmod.__name__, tag=i)
+        objs.append({"tab": t, "obj": obj, "fq": fq, "th": make_thread(obj), "watch": Watch(owned_codes(cls)),
+                     "exp": exp, "defcls": defcls, "inst0": inst0})
+    n = len(objs)
+    chunks = []
+    for nm in HIST_NAMES:
+        seq = []
+        for i in range(n):
+            for j in range(n):
+                if i != j:
+                    seq += [(i, nm), (j, nm), (i, nm)]
+        chunks.append(seq)
+    seq = []
+    for i in range(n):
+        for n1 in HIST_NAMES:
+            for n2 in HIST_NAMES:
+                if n1 != n2:
+                    seq += [(i, n1), (i, n2), (i, n1)]
+    chunks.append(seq)
+    terms = []
+    total = 0
+    recent = []
+    ctr = 0
+    for seq in chunks:
+        observed = []
+        for (i, nm) in seq:
+            o = objs[i]
+            ctr += 1
+            del CALLS[:]
+            del LOG[:]
+            kind, det, ran = route_b(o["th"], nm, o["watch"], args=(ctr,), kwargs={})
+            executed = list(CALLS) + list(LOG)
+            total += 1
+            k = T.resolve(o["tab"], cache, nm)
+            ck.note_case(("history", ctr), True)
+            ck.count("history:%s" % ("accepted" if kind == "value" else kind))
+            here = {"origin": "history", "gen": gen_params, "request": [o["fq"], nm], "position": ctr,
+                    "preceding_requests": list(recent[-6:]), "reply": kind, "executed": repr(executed[:3])}
+            if o["exp"][nm]:
+                ok = kind == "value" and len(executed) == 1 and executed[0][0] == nm
+                if ok and len(executed[0]) == 4:
+                    ok = executed[0][3] == i and executed[0][1] == (ctr,)
+                elif ok:
+                    ok = executed[0][1] == o["defcls"][nm]
+                if not ok:
+                    ck.report("history:marked-name:%s" % ("refused" if kind != "value" else "wrong-execution"),
+                              "request %d of a history over %d objects: %r on %s (marked there) gives %s %r and executes "
+                              "%r; the same request on a fresh process is accepted and runs exactly that method once"
+                              % (ctr, n, nm, o["fq"], kind, det, executed[:3]), here)
+                observed.append(0)
+            else:
+                if kind == "value" or executed or ran:
+                    ck.report("history:unmarked-name:%s" % ("accepted" if kind == "value" else "executes"),
+                              "request %d of a history over %d objects: %r on %s (not RPC-callable there: %s) gives %s "
+                              "and executes %r %r; earlier requests: %r"
+                              % (ctr, n, nm, o["fq"], T.kind_term(k) if k else "no such attribute", kind,
+                                 executed[:3], ran, recent[-3:]), here)
+                    observed.append(0 if kind == "value" else 9)
+                elif kind != "unknown":
+                    ck.report("history:unmarked-name:%s" % kind,
+                              "request %d of a history: %r on %s is answered with %s %r instead of the unknown-RPC "
+                              "error" % (ctr, nm, o["fq"], kind, det), here)
+                    observed.append(9)
+                else:
+                    code = 1 if str(det).startswith("Object ") else 2 if str(det).startswith("Method ") else 9
+                    observed.append(4 if (k is not None and k[0] in ("KProperty", "KOther")) else code)
+            recent.append([o["fq"].split(".")[-1], nm, kind])
+        terms.append("(mkHCase [%s] [%s] [%s])" % (
+            "; ".join("(%s, %s)" % (o["tab"]["ident"], T.coq_names(o["inst0"])) for o in objs),
+            "; ".join("(%d, %s)" % (i, T.coq_name(nm)) for i, nm in seq),
+            "; ".join(cN(c) for c in observed)))
+    return terms, total, [o["fq"] for o in objs]
 
 # ---------------------------------------------------------------------------------------------
 # run
@@ -1022,8 +1293,10 @@ def run(ck):
         "run's correspondence on every shipped and generated class",
         "translator harness/translators/t_c05_classes.py (live class objects + python ast scan of method bodies, "
         "fail-closed), validated dynamically against the real handlers on every instantiable class",
-        "python harness c05.py: stub context, fake create_transport, synthesized constructor arguments, recording "
-        "stubs that shield driver method bodies, sys.setprofile watcher",
+        "python harness c05.py: stub context, fake create_transport, synthesized constructor arguments, fake vendor "
+        "modules (sys.modules stubs for libraries that are not installed; shared-library loader and "
+        "sys.platform shims for two drivers), recording stubs that shield driver method bodies, sys.monitoring "
+        "watcher of the code objects of the target's classes",
         "CPython attribute lookup (object.__getattribute__, type.__getattribute__, descriptor protocol), "
         "inspect.getmembers / inspect.isfunction",
     ]
@@ -1033,8 +1306,10 @@ def run(ck):
         "`_rpc_method`; A3: instance dictionary names are among the scanned `self.<name> = ...` names plus declared "
         "signals.  All three are checked dynamically on every instantiable class (any accepted name must be "
         "statically marked; vars(obj) is compared with the scan).",
-        "method names in requests are str (hasattr raises TypeError for anything else: error reply, nothing runs; "
-        "probed every run, outside the quantifier of C05)",
+        "the model's names are strings; requests whose method_name is not a str are covered by the fixed "
+        "exotic-name bucket only (oracle: unknown-RPC error, nothing executed)",
+        "objects of vendor libraries that are not installed are stood in for by FakeVendor objects that, like the "
+        "real ones, have no `_rpc_method` attribute",
         "what an accepted method does (its body, its effect on instance attributes within the scanned names) is "
         "outside C05",
     ]
@@ -1042,6 +1317,16 @@ def run(ck):
     nmod, not_covered = T.walk_qmi()
     ck.coverage["modules_imported"] = nmod
     ck.coverage["modules_not_covered"] = ["%s (%s)" % x for x in not_covered]
+    fakes = install_fake_vendor()
+    retried = []
+    for mname, why in not_covered:
+        try:
+            importlib.import_module(mname)
+            retried.append("%s: imports with fake vendor modules" % mname)
+        except BaseException as e:  # noqa
+            retried.append("%s: still not importable (%s: %s)" % (mname, type(e).__name__, str(e)[:80]))
+    ck.coverage["fake_vendor_modules_installed"] = fakes
+    ck.coverage["modules_not_covered_retry_with_fakes"] = retried
     npatched = patch_create_transport()
     shipped = T.shipped_classes()
     cache = {}
@@ -1105,7 +1390,8 @@ def run(ck):
     ck.coverage["shipped_classes"] = {"total": len(tabs), "instantiated_and_probed": n_ship_inst,
                                       "static_only": len(tabs) - n_ship_inst,
                                       "create_transport_patched_in_modules": npatched,
-                                      "static_only_reasons": dict(collect["not_instantiable"])}
+                                      "static_only_reasons": dict(collect["not_instantiable"]),
+                                      "instantiated_with_loader_or_platform_shim": list(SHIMMED)}
     collect["gen_log"] = gmod.LOG
     collect["not_instantiable"] = []
     for t, ok in zip(gtabs, gok):
@@ -1118,6 +1404,16 @@ def run(ck):
     for m in (metas[1], metas[len(tabs) // 2], metas[-1]):
         ck.sample({"class": m["class"], "origin": m["origin"], "advertised": m["methods"][:8],
                    "accepted": m.get("accepted", "(not instantiated)")[:8], "probes": m["n_probes"]}, 3)
+    # ---- fixed bucket: histories over several objects --------------------------------------------------------
+    hterms, nreq, hobjs = history_bucket(ck, tabs, gtabs, cache, gmod, collect["gen_params"])
+    ck.coverage["history_bucket"] = {"objects": hobjs, "names": HIST_NAMES, "requests": nreq}
+    hbad = ck.run_model(CORR, "check_hcase", hterms, "hcase", shard=2)
+    ck.coverage["history_correspondence_disagreements"] = len(hbad)
+    for i in hbad[:2]:
+        ck.report("corr:history", "implementation and Coq model (sys_run) disagree on a history over several objects "
+                  "(chunk %d: %s)" % (i, (HIST_NAMES + ["name pairs"])[i]),
+                  {"origin": "history", "chunk": i, "gen": collect["gen_params"],
+                   "broken": "correspondence C05.Corr.check_hcase"}, found_input=False)
     # ---- model ---------------------------------------------------------------------------------------------------
     bad = ck.run_model(CORR, "check_case", terms, "case", shard=12)
     ck.coverage["correspondence_disagreements"] = len(bad)
@@ -1137,13 +1433,13 @@ def run(ck):
                      "the class (as opposed to junk that resolves nowhere); distinct by (class, name)",
                      "Theorems are about Model.v for every class table; class_ok is discharged by vm_compute for each "
                      "of the %d shipped QMI_RpcObject classes (tables regenerated from the live classes this run). "
-                     "%d shipped classes were instantiated and probed through the real _check_and_get_method / "
-                     "_handle_method_rpc_request with every name of dir(obj), the metaclass, the descriptor and junk; "
-                     "%d are covered statically only (table + class_ok + real descriptor + real proxy) because their "
-                     "constructor needs a vendor library or platform. %d generated classes (%d inside class_ok) went "
-                     "through the same translator and checks. Known findings: hasattr()/getattr() in "
-                     "_check_and_get_method evaluate property getters of the target object (see known_findings.d/"
-                     "C05.json, fixes/C05_property_getter_runs_before_marker_check.diff)."
+                     "%d shipped classes were instantiated (fake vendor modules where a library is missing) and probed "
+                     "through the real _check_and_get_method / _handle_method_rpc_request with every name of dir(obj), "
+                     "the metaclass, the descriptor and junk; %d are covered statically only. %d generated + fixed "
+                     "classes (%d inside class_ok) went through the same translator and checks. Fixed buckets: "
+                     "histories over 14 live objects of different classes (C05_history_independent), marked protected "
+                     "names reaching a class through an intermediate base / grandparent / mix-in, marked methods from "
+                     "mix-ins before/after the RPC base, non-string and exotic method names. "
                      % (len(tabs), n_ship_inst, len(tabs) - n_ship_inst, len(gtabs), sum(gok)))
 
 
@@ -1159,25 +1455,78 @@ def _kind_totals(tabs, cache):
 # replay
 # ---------------------------------------------------------------------------------------------
 
+class _Collector:
+    """stands for common.Check when a single case is replayed: prints what the oracle reports"""
+
+    def __init__(self):
+        self.rng = random.Random(0)
+        self.keys = []
+
+    def report(self, key, what, obj, found_input=True):
+        import re
+        key = re.sub(r"-?\d+", "N", key)
+        if key not in self.keys:
+            self.keys.append(key)
+            print("oracle: [%s] %s" % (key, what))
+
+    def count(self, *a, **k):
+        pass
+
+    def note_case(self, *a, **k):
+        pass
+
+    def sample(self, *a, **k):
+        pass
+
+
 def replay(rep):
+    """Re-run the oracle on the class (or the history bucket) of the stored case, on the tree under test.
+    Exit status 1 iff the stored violation key is reported again."""
+    import logging
+    import shutil
+    logging.getLogger("qmi").setLevel(logging.CRITICAL)
     c = rep["case"]
     T.walk_qmi()
+    install_fake_vendor()
     patch_create_transport()
-    if c.get("origin") == "generated":
-        scratch = os.path.join(os.environ.get("VERIF_SCRATCH", "/var/tmp"), "qmi-verif.C05replay.%d" % os.getpid())
-        os.makedirs(scratch, exist_ok=True)
-        try:
+    col = _Collector()
+    collect = {"instantiated": 0, "not_instantiable": [], "unscanned_instance_attrs": {},
+               "gen_params": c.get("gen"), "gen_log": None}
+    scratch = os.path.join(os.environ.get("VERIF_SCRATCH", "/var/tmp"), "qmi-verif.C05replay.%d" % os.getpid())
+    try:
+        cache = {}
+        origin = c.get("origin")
+        if origin in ("generated", "history"):
+            os.makedirs(scratch, exist_ok=True)
             gmod, classes, _ = load_generated(scratch, c["gen"]["seed"], c["gen"]["n"])
-            cls = [k for k in classes if k.__qualname__ == c["class"].split(".")[-1]][0]
-            return _replay_one(cls, c, gmod.LOG)
-        finally:
-            import shutil
-            shutil.rmtree(scratch, ignore_errors=True)
-    cls = [k for k in T.shipped_classes() if "%s.%s" % (k.__module__, k.__qualname__) == c["class"]]
-    if not cls:
-        print("class %s not found in the tree under test" % c["class"])
-        return 2
-    return _replay_one(cls[0], c, None)
+            collect["gen_log"] = gmod.LOG
+        if origin == "history":
+            tabs, _, cache = T.translate(T.shipped_classes(), cache)
+            gtabs, _, cache = T.translate([k for k in classes if k.__name__.startswith("H_")], cache)
+            for t in tabs + gtabs:
+                t["ident"] = "X"
+            print("stored case: request %r after %r" % (c.get("request"), c.get("preceding_requests")))
+            history_bucket(col, tabs, gtabs, cache, gmod, c.get("gen"))
+        else:
+            if origin == "generated":
+                cls = [k for k in classes if k.__qualname__ == c["class"].split(".")[-1]]
+            else:
+                cls = [k for k in T.shipped_classes() if "%s.%s" % (k.__module__, k.__qualname__) == c["class"]]
+            if not cls:
+                print("class %s not found in the tree under test" % c["class"])
+                return 2
+            _replay_one(cls[0], c, collect["gen_log"])
+            tabs, errs, cache = T.translate(cls, cache)
+            if errs:
+                print("translator refuses the class:", errs[0][1])
+                return 1
+            tabs[0]["ident"] = "X"
+            check_class(col, tabs[0], cache, origin or "shipped", col.rng, c.get("demand_equal", True), collect)
+    finally:
+        shutil.rmtree(scratch, ignore_errors=True)
+    if not col.keys:
+        print("oracle: the property holds on this case")
+    return 1 if rep.get("key") in col.keys else 0
 
 
 def _replay_one(cls, c, glog):
